@@ -275,9 +275,12 @@ def unnestSvg (svgUid : Nat) (pw ph : Float) : (fuel : Nat) → DocM (List Node)
     | some s => do let m ← liftE (parseAff s); pure (Aff.composeLtr [t0, m])
     | none => pure t0
   let gattrs : Attrs := if !(t == (Aff.id : Aff Float)) then [("transform", Aff.tostring t)] else []
-  let g := Node.elem gu (Node.svgTag "g") gattrs (svg.children.filter Node.isLxmlNode)
+  -- the nested svg's presentation attributes go on the outermost group (`attrib.update`: in the order written)
+  let pres : Attrs := svg.attrs.filter (fun (k, _) => Gen.nestedSvgPresentationAttrib.contains k)
+  let kids := svg.children.filter Node.isLxmlNode
+  let g := Node.elem gu (Node.svgTag "g") gattrs kids
   let overflow := (svg.getAttr "overflow").getD "hidden"
-  if overflow == "visible" then return [g]
+  if overflow == "visible" then return [Node.elem gu (Node.svgTag "g") (gattrs ++ pres) kids]
   if overflow != "hidden" then fail .notImplementedError
   -- the id search only sees what is in the tree right now (the detached group is not)
   let cur ← getRoot
@@ -287,7 +290,7 @@ def unnestSvg (svgUid : Nat) (pw ph : Float) : (fuel : Nat) → DocM (List Node)
   let rect := (ShapeRec.postInit ((((ShapeRec.default "rect").set "x" (.f x)).set "y" (.f y)).set "width" (.f width) |>.set "height" (.f height))).toElement ru []
   let clip := Node.elem cu (Node.svgTag "clipPath") [("id", cid)] [rect]
   let cgu ← freshUid
-  let clipped := Node.elem cgu (Node.svgTag "g") [("clip-path", "url(#" ++ cid ++ ")")] [g]
+  let clipped := Node.elem cgu (Node.svgTag "g") (("clip-path", "url(#" ++ cid ++ ")") :: pres) [g]
   pure [clip, clipped]
 
 /-- `resolve_nested_svgs(inplace=True)`; returns whether the Python method returns `self` -/
